@@ -756,6 +756,10 @@ func prepareStage(c *vf.Check, dir, d string) {
 		return
 	}
 	base := filepath.Base(d)
+	// ordinary files of the package belong to the staged copy as well
+	if data, err := os.ReadFile(filepath.Join(d, "plain.go")); err == nil {
+		vf.Must(os.WriteFile(filepath.Join(stage, "plain.go"), data, 0o644))
+	}
 	files, _ := filepath.Glob(filepath.Join(stage, "*.go"))
 	for _, f := range files {
 		data, _ := os.ReadFile(f)
